@@ -113,8 +113,36 @@ def leaf_cases(ck, coq_in):
                 ck.violation("default-outside-space:host", "absent host default not in space", {})
 
 
+def router_variants(ck):
+    """directed: a routed family with the router's observation given an explicit port list shorter / longer than its slot
+    count, and the router (or firewall) not ON from the start -- the defaults of absent components must still fit the space"""
+    import copy
+    out, found = [], 0
+    for k in range(40):
+        cfg = family.generate(ck.seed + 1000 + k)
+        routers = [n for n in cfg["simulation"]["network"]["nodes"] if n["type"] in ("router", "firewall")]
+        if not routers:
+            continue
+        found += 1
+        for ln in ((0, 5) if ck.quick else (0, 1, 2, 4, 5)):
+            c = copy.deepcopy(cfg)
+            for a in c["agents"]:
+                comps = (a.get("observation_space") or {}).get("options", {}).get("components", [])
+                for comp in comps:
+                    for e in comp.get("options", {}).get("routers", []) or []:
+                        e["ports"] = [{"port_id": i + 1} for i in range(ln)]
+            for n in c["simulation"]["network"]["nodes"]:
+                if n["type"] in ("router", "firewall"):
+                    n["operating_state"] = "OFF"
+            out.append(("family/%d + devices off, %d explicit router ports" % (ck.seed + 1000 + k, ln), c))
+        if found >= (1 if ck.quick else 3):
+            break
+    return out
+
+
 def scenarios(ck):
     out = [("family/%d" % (ck.seed + k), family.generate(ck.seed + k)) for k in range(ck.n(4, 14))]
+    out += router_variants(ck)
     out.append(("pkg/data_manipulation.yaml", world.load_cfg(world.PKG + "/data_manipulation.yaml")))
     if not ck.quick:
         out.append(("pkg/uc7_config.yaml", world.load_cfg(world.PKG + "/uc7_config.yaml")))
